@@ -832,7 +832,9 @@ func (r *resolver) cloneDefs(parent HasDataDefinitions, defs []Definition, when 
 	for i, d := range defs {
 		copy[i] = d.(cloneable).clone(parent).(Definition)
 		if when != nil {
-			copy[i].(HasWhen).setWhen(when)
+			// the condition of the uses and the node's own both have to hold
+			hw := copy[i].(HasWhen)
+			hw.setWhen(whenBoth(hw.When(), when))
 		}
 	}
 	return copy
@@ -965,8 +967,8 @@ func (r *resolver) expandAugment(y *Augment, parent Meta) error {
 		added = append(added, d)
 		if y.when != nil {
 			// augment's condition guards every node it adds
-			if hasWhen, valid := d.(HasWhen); valid && hasWhen.When() == nil {
-				hasWhen.setWhen(y.when)
+			if hasWhen, valid := d.(HasWhen); valid {
+				hasWhen.setWhen(whenBoth(hasWhen.When(), y.when))
 			}
 		}
 		if targetIsChoice {
